@@ -64,6 +64,7 @@ UNITS = {
     'LINKBUILDER': dict(template='linkbuilder.rs', rlimit=30),
     'DELIVERY': dict(template='delivery.rs', rlimit=30),
     'TERMINUS': dict(template='terminus.rs', rlimit=30),
+    'CONNBUILDER': dict(template='connbuilder.rs', rlimit=30),
     'VISITENUM': dict(template='visitenum.rs', rlimit=30),
     'NEWTYPES': dict(template='newtypes.rs', rlimit=30),
     'SIZEENTRY': dict(template='sizeentry.rs', rlimit=30),
@@ -203,7 +204,7 @@ PROPS = {
                      'allocation is modelled at the request sites that take a length from the wire (vec![0u8; n], Vec::resize): their stand-ins carry the bound as a precondition; Vec growth inside read_to_end/push/append is std-amortised and proportional to the bytes appended; String::from_utf8(buf) reuses buf',
                      'the stream behind IoReader is an arbitrary byte source that may fail at any point; fewer than 2^64 bytes pass through a reader']),
     'C19': dict(
-        units=['FRAMEDEC', 'SASLNEG', 'SASLMECH', 'HEADERS', 'HDRCODEC', 'FRAMEENC', 'WIRELAYOUT', 'ENUMCODES', 'VISITENUM', 'MECHLIST'], kani=K_SASL, level='proof', title='SASL (listener loop, PLAIN and SCRAM mechanisms, SCRAM client and client loop under contract; crypto and string library calls uninterpreted)',
+        units=['FRAMEDEC', 'SASLNEG', 'SASLMECH', 'HEADERS', 'HDRCODEC', 'FRAMEENC', 'WIRELAYOUT', 'ENUMCODES', 'VISITENUM', 'MECHLIST', 'CONNBUILDER'], kani=K_SASL, level='proof', title='SASL (listener loop, PLAIN and SCRAM mechanisms, SCRAM client and client loop under contract; crypto and string library calls uninterpreted)',
         level_text='Under Verus contracts: (1) the listener negotiation loop (acceptor/connection.rs negotiate_sasl_with_framed: an AMQP connection is negotiated only after an outcome with code OK was produced by the mechanism and sent; anything else ends in Err); (2) the listener mechanisms: PLAIN (validate_credential / validate_init / on_init / on_response: OK only for the configured user name and password, byte for byte) and SCRAM (ScramVersion::compute_server_final_message, ScramAuthenticator::compute_server_final_message, on_init, on_response: OK only when H(proof XOR HMAC(StoredKey, AuthMessage)) == StoredKey for the user and the combined nonce of this exchange); (3) the SCRAM client (ScramVersion::{compute_client_final_message, validate_server_final, compute_server_signature, compute_client_proof}, auth_message, without_proof, client_final, ScramClient::{compute_client_final_message, validate_server_final}, SaslProfile::on_frame) and the client negotiation loop Builder::negotiate_sasl: Ok only on an outcome frame with code OK, and for a SCRAM profile only if that outcome carries HMAC(ServerKey(password, salt, i), AuthMessage) over an exchange whose server-first message was received as a challenge and whose nonce extends the client nonce; (4) the SASL frame decoder (any body yields Ok or Err, a non-SASL frame type is refused). HMAC/SHA/PBKDF2/XOR, base64 and the str operations are uninterpreted functions. In addition the PLAIN validator is checked by Kani on the real fe2o3-amqp crate for every initial response up to 7 bytes against an independent oracle -- a BOUNDED stand-in listed under bounded_obligations, not counted as proved.',
         assumptions=[
             'cryptographic primitives (hmac, h, h_i/compute_salted_password, xor), base64 encode/decode, str::{split, strip_prefix, starts_with, parse}, from_utf8, the NUL-split iterator and bytes::BufMut on Vec<u8> are stand-ins with uninterpreted results: the contracts say WHICH values are compared and hashed, not that HMAC is unforgeable',
@@ -215,7 +216,7 @@ PROPS = {
             'PLAIN does not check that init.mechanism == PLAIN and ignores fields after the third NUL (observed, not part of the property)']),
     'C06': dict(
         probes=[COMPOSITE_VARIANTS],
-        units=['FRAMEENC', 'FRAMEDEC', 'CONNENG', 'TRANSPORT', 'HDRCODEC', 'SASLNEG', 'HEADERS', 'READERS', 'BUILDER', 'WIRELAYOUT', 'SERHDR', 'ENUMCODES', 'SETTERS', 'VISITENUM', 'ATTACHBUILD', 'LINKATTACH'], kani=[], level='proof', title='Frames on the wire',
+        units=['FRAMEENC', 'FRAMEDEC', 'CONNENG', 'TRANSPORT', 'HDRCODEC', 'SASLNEG', 'HEADERS', 'READERS', 'BUILDER', 'WIRELAYOUT', 'SERHDR', 'ENUMCODES', 'SETTERS', 'VISITENUM', 'ATTACHBUILD', 'LINKATTACH', 'CONNBUILDER'], kani=[], level='proof', title='Frames on the wire',
         lemmas={'HDRCODEC': ['lemma_header_round_trip'], 'FRAMEENC': ['lemma_expected_properties', 'lemma_cut_points', 'lemma_mids_payload', 'lemma_mids_sizes', 'lemma_flatten_append', 'lemma_payloads_append']},
         assumptions=[
             'precondition fits(): the transfer performative alone (in each of its three forms) is smaller than the frame body; a larger one is outside the contract (usize underflow / no progress)',
@@ -253,7 +254,7 @@ PROPS = {
             'header-before-open (transport protocol-header exchange), a peer close always being answered, handle results, EOF handling and flushing of queued frames are liveness/glue and are NOT decided',
             'ConnectionEngine::{on_incoming,on_outgoing_session_frames,on_heartbeat,forward_to_session} are under contract (unit CONNENG) against a stand-in connection endpoint carrying the CONN contracts; close_connection / wait_for_remote_close / on_control / on_error / event_loop (select!) are not']),
     'C17': dict(
-        units=['CONN', 'CONNENG', 'FRAMEDEC', 'BUILDER', 'TRANSPORT', 'TIMERS', 'LCONNDELEG', 'WIRELAYOUT', 'ENUMCODES', 'SETTERS'], kani=[], level='proof', title='Negotiated limits (channel-max; idle time-out bookkeeping)',
+        units=['CONN', 'CONNENG', 'FRAMEDEC', 'BUILDER', 'TRANSPORT', 'TIMERS', 'LCONNDELEG', 'WIRELAYOUT', 'ENUMCODES', 'SETTERS', 'CONNBUILDER'], kani=[], level='proof', title='Negotiated limits (channel-max; idle time-out bookkeeping)',
         assumptions=[
             'DECIDED: channel-max; the VALUES the timers are armed with (heartbeat period from the peer\'s idle-time-out, 0/unset => none; local deadline = configured idle-time-out, advertised value = half of it); one empty frame per heartbeat tick; none after the local Close. the local idle timer is restarted by every incoming item and by nothing the local side sends, and an elapsed timer is reported as IdleTimeoutElapsed (Transport::poll_next / start_send, unit TRANSPORT; the timer is a stand-in with a restart counter and an elapsed flag). NOT DECIDED: the timed behaviour itself (tokio Interval/Sleep): no clock in either verifier',
             'slab::Slab modelled as a partial map whose vacant key is unoccupied']),
